@@ -64,8 +64,8 @@ func init() {
 	quick := (exhaustiveN + 1500 + group - 1) / group
 	core.Register(&core.Simple{
 		Id: "C16", Lvl: "exploration", Quick: quick, Thorough: (exhaustiveN + 150000) / group, PerBatch: 40, Width: 16, Timeout: 1500,
-		RuleText: "bitmaps over the 40 defined privileges are enumerated: empty, all 40 single bits and all 780 pairs (exhaustive), all-40, then seeded random subsets; for each bitmap the account is saved through the real account manager (YAML keys set to true must be exactly the reference names), reloaded by a fresh manager, written in legacy numeric-array form and loaded (migration) and reloaded, logged in (user-access field compared byte-for-byte, MSB-first), and probed with governed requests (chat, board read/post, list accounts, new folder, broadcast, client info) whose grant/deny must follow the same numbering. distinct = bitmap; non-trivial = non-empty bitmap",
-		Case: runCase,
+		RuleText: "bitmaps over the 40 defined privileges are enumerated: empty, all 40 single bits and all 780 pairs (exhaustive), all-40, then seeded random subsets; for each bitmap the account is saved through the real account manager (YAML keys set to true must be exactly the reference names), reloaded by a fresh manager, later edited to the next bitmap (every second edit also changes the login) with memory, file and a fresh manager compared again, written in legacy numeric-array form and loaded (migration) and reloaded, logged in (user-access field compared byte-for-byte, MSB-first), and probed with governed requests (chat, board read/post, list accounts, new folder, broadcast, client info) whose grant/deny must follow the same numbering. distinct = bitmap; non-trivial = non-empty bitmap",
+		Case:     runCase,
 	})
 }
 
@@ -239,6 +239,66 @@ func runCase(c *core.Case) {
 		}
 		_ = cls
 	}
+	// (6) the other way an account is saved: an edit, with or without a change of login in the same request. The
+	// privileges become those of the NEXT item; memory, the file (by name) and a fresh manager must all show them.
+	for gi, it := range items {
+		next := items[(gi+1)%len(items)]
+		acc := srv.S.AccountManager.Get(it.login)
+		if acc == nil {
+			c.Fail("C16/edit/missing", "account %s missing before the edit", it.login)
+			continue
+		}
+		copy(acc.Access[:], next.bm)
+		newLogin := it.login
+		if gi%2 == 0 {
+			newLogin = it.login + "-renamed"
+		}
+		if err := srv.S.AccountManager.Update(*acc, newLogin); err != nil {
+			c.Fail("C16/edit/error", "update %s -> %s: %v", it.login, newLogin, err)
+			continue
+		}
+		c.Count("edits", 1)
+		what := "edit"
+		if newLogin != it.login {
+			what = "edit-with-rename"
+		}
+		if a := srv.S.AccountManager.Get(newLogin); a == nil || !bytes.Equal(a.Access[:], next.bm) {
+			c.Fail("C16/"+what+"/memory", "%s from privileges %v to %v: the running server holds %x, want %x", what, it.set, next.set, accessOf(a), next.bm)
+		}
+		raw, _ := os.ReadFile(filepath.Join(users, newLogin+".yaml"))
+		var doc struct {
+			Access map[string]bool `yaml:"Access"`
+		}
+		yaml.Unmarshal(raw, &doc)
+		var gotNames, wantNames []string
+		for k, v := range doc.Access {
+			if v {
+				gotNames = append(gotNames, k)
+			}
+		}
+		for _, b := range next.set {
+			wantNames = append(wantNames, fixture.AccessNames[b])
+		}
+		sort.Strings(gotNames)
+		sort.Strings(wantNames)
+		if strings.Join(gotNames, ",") != strings.Join(wantNames, ",") {
+			c.Fail("C16/"+what+"/disk-names", "%s to privileges %v: account file marks %v true, protocol names are %v", what, next.set, gotNames, wantNames)
+		}
+	}
+	if m5, err := verifshim.NewYAMLAccountManager(users); err != nil {
+		c.Fail("C16/reload-after-edits", "fresh manager: %v", err)
+	} else {
+		for gi, it := range items {
+			next := items[(gi+1)%len(items)]
+			newLogin := it.login
+			if gi%2 == 0 {
+				newLogin = it.login + "-renamed"
+			}
+			if a := m5.Get(newLogin); a == nil || !bytes.Equal(a.Access[:], next.bm) {
+				c.Fail("C16/edit/reload", "after an edit to privileges %v a fresh manager holds %x for %s, want %x", next.set, accessOf(a), newLogin, next.bm)
+			}
+		}
+	}
 	c.Count("bitmaps", len(items))
 	classes := map[string]int{}
 	for _, it := range items {
@@ -248,4 +308,11 @@ func runCase(c *core.Case) {
 	for k, v := range classes {
 		c.Count("bitmaps_"+k, v)
 	}
+}
+
+func accessOf(a *hotline.Account) []byte {
+	if a == nil {
+		return nil
+	}
+	return a.Access[:]
 }
